@@ -412,6 +412,10 @@ def verify_unit(world, func, ct, receiver=None, unit_name=None, setup=None, max_
     unit_name = unit_name or (func.qualname + (f"[{receiver.module.rsplit('_', 1)[-1]}]" if isinstance(receiver, ClassVal) else ""))
     all_obligs = []
     stats = {"paths": 0, "unit": unit_name, "outcomes": {}, "feas_unknown": 0}
+    if getattr(ct, "unsupported_reason", None):
+        stats["unsupported"] = ct.unsupported_reason
+        stats["secs"] = 0.0
+        return all_obligs, stats
 
     def unit(ctx):
         I = Interp(world, ctx)
@@ -561,6 +565,11 @@ def apply_contract(I, ct, f, args, kwargs, fr, node):
         oname = f"{rid}@call:{callee}" if re.match(r"C\d\d", rid) else f"pre/{callee}/{rid}"
         check_goal(I, goal, oname, "helper", getattr(I, "unit_name", ""))
         c.assume(goal)
+    if ct.wf:
+        # the callee's contract speaks about a well-formed heap and hands one back: the heap it is called on must be well formed
+        # (otherwise "WF holds after the call" would launder an invariant this function has broken before the call)
+        for name, goal, hyps in wf_goals(I, pre, pre, getattr(I, "unit_name", "")):
+            check_goal(I, goal, f"{name}@call:{ct.qualname.rsplit('.', 1)[-1]}", "helper", getattr(I, "unit_name", ""), hyps)
     fs = eval_modifies(I, ct, env, pre)
     # fresh objects the callee allocates
     fresh_objs = {}
@@ -778,7 +787,7 @@ def n_loops(func):
     return sum(1 for node in ast.walk(func.node) if isinstance(node, (ast.For, ast.While, ast.AsyncFor)))
 
 
-def find_loop_contract(I, func, ordn):
+def find_loop_contract(I, func, ordn, node=None):
     """The loop contract keyed by (function, loop ordinal).  When the loop was moved into a helper that is executed inline
     (extract-function refactoring), the contract its old place in the unit's top function leaves orphaned is used for it:
     its clauses are evaluated over the unit's parameters plus the locals of the frame the loop now runs in."""
@@ -786,7 +795,9 @@ def find_loop_contract(I, func, ordn):
     table.update(getattr(I, "loop_override", {}))
     lc = table.get((func.qualname, ordn))
     loops = [n for n in ast.walk(func.node) if isinstance(n, (ast.For, ast.While, ast.AsyncFor))]
-    this = loops[ordn] if 0 <= ordn < len(loops) else None
+    this = loops[ordn] if 0 <= ordn < len(loops) else node  # `node`: a loop synthesized from a comprehension
+    if this is node and node is not None and node not in loops:
+        loops = loops + [node]
 
     def body_calls(loop, name):
         return any(isinstance(x, ast.Call) and isinstance(x.func, ast.Attribute) and x.func.attr == name for st in loop.body for x in ast.walk(st))
@@ -815,7 +826,7 @@ def exec_symbolic_for(I, s, it, fr):
     c = I.c
     func = fr.func
     ordn = loop_ordinal(func, s)
-    lc = find_loop_contract(I, func, ordn)
+    lc = find_loop_contract(I, func, ordn, s)
     if lc is None:
         raise Unsupported(f"loop {ordn} of {func.qualname} has no invariant")
     if isinstance(it, Obj):
